@@ -25,6 +25,11 @@ pub fn ops_on_value<K: Kmer>(s: &[u8], full_slices: bool) -> (u64, Vec<String>) 
     let mut longer = s.to_vec();
     longer.extend_from_slice(&[3, 3, 3]);
     chk!(K::from_bytes(&longer) == a, "from_bytes of a longer slice");
+    let mut longer_asc = asc.clone();
+    longer_asc.extend_from_slice(b"TTg");
+    chk!(K::from_ascii(&longer_asc) == a, "from_ascii of a longer slice must use the first K letters, got {}", K::from_ascii(&longer_asc).to_string());
+    chk!(format!("{:?}", a).as_bytes() == &asc[..], "Debug rendering {:?}", a);
+    chk!(a.iter().collect::<Vec<u8>>() == s, "Mer::iter");
     if k <= 32 {
         let r = rank(s);
         chk!(a.to_u64() == r, "to_u64 {} want {}", a.to_u64(), r);
@@ -123,6 +128,11 @@ pub fn check(tier: &str, rep: &mut Report) {
     let mut types = vec![];
     for_all_kmer_types!(K, name => {
         let k = K::k();
+        // the K of a type is the one its name promises
+        let nominal: usize = name.trim_start_matches("VarIntKmer<u64,K").trim_start_matches("VarIntKmer<u8,K").trim_start_matches("Kmer").trim_end_matches('>').parse().expect("type name carries K");
+        if nominal != k || K::empty().len() != k {
+            rep.violation(Violation { signature: "kmer-type-has-wrong-k".into(), case: json!({"type": name, "value": Value::Null, "nominal_k": nominal}), detail: format!("{}: k() = {}, len() = {}, the type is documented as a {}-mer", name, k, K::empty().len(), nominal) });
+        }
         let (vals, complete) = values(k, if quick { 8 } else { 12 }, true);
         let full_slices = true;
         let fails: Vec<(S, String)> = vals.par_iter().flat_map_iter(|s| {
@@ -158,7 +168,7 @@ pub fn check(tier: &str, rep: &mut Report) {
     rep.sample(json!({"type": "Kmer48", "value": "A...A with T at 17 and C at 40 (2-hot pattern on A background)"}));
     rep.rule = "all 20 instantiable k-mer types; K <= 8 (thorough: K <= 12): ALL 4^K values x every operation x every in-range argument (set_mut: all pos x base; set_slice_mut: all pos x all run lengths 1..=min(32,K-pos) x 4 value words incl. garbage below the run; extend both sides x 4 bases; rc; rank both ways; AT/GC; text; get_extensions; hamming: all pairs for K<=4(5), else value x 300-probe family); K >= 10: pattern family P(K) = every value with <= 2 positions different from a constant background (4 backgrounds) + counter/LCG/palindromic patterns (complete over which lanes an operation touches, not over content: exhaustive=false for those types); distinct_nontrivial = values that are not homopolymers".into();
     rep.assumptions.push("K >= 10: coverage argument (every operation is a lane-wise network of shifts/masks), not exhaustive in content".into());
-    rep.assumptions.push("Debug output is not judged; to_u64/from_u64 only for K <= 32".into());
+    rep.assumptions.push("to_u64/from_u64 only for K <= 32".into());
     rep.floor("Kmer8:values", 65536);
 }
 
